@@ -8,15 +8,17 @@ so that a change of one solver breaks only its own theorems) and the documented 
                  formula, with points read as elements of `EuclideanSpace ℝ (Fin n)`.
 
 Everything the property files (C13, C09, C07, C08, C20 shares) prove about the code goes through
-these statements.  They are proved by unfolding the generated definitions and rewriting
-`Real.sqrt (… * … + …)` into norms / distances / inner products, so they break — loudly — when
-the traced formula changes.
+these statements.  They are proved by reducing the traced tree with the acceptance conditions (whatever
+their order), rewriting the documented norms / distances / inner products into coordinates and ring
+normalisation inside and outside the square roots (EPV/Lemmas/Bridge/DetonTactics.lean), so they do not
+depend on how the Python writes the formula, and break — loudly — when the traced formula changes.
 -/
 import EPV.Gen.K1d2
 import EPV.Gen.K1d3
 import EPV.Spec.Burn
 import EPV.Lemmas.Burn
 import EPV.Tactics
+import EPV.Lemmas.Bridge.DetonTactics
 
 set_option linter.all false
 
@@ -36,39 +38,49 @@ noncomputable def K1d3.det (p : K1d3.P) : E3 := !₂[p.xd0, p.xd1, p.xd2]
 
 /-- the request is accepted exactly when D > 0 (geometry and the length of `x_d` are concrete here) -/
 theorem k1d2_outcome (p : K1d2.P) (x y : ℝ) : K1d2.outcome p x y = .ok ↔ 0 < p.D := by
-  simp only [epv_tree]
-  by_cases h : K1d2.c0 p x y
-  · rw [if_pos h]; simp only [epv_cond] at h
-    exact ⟨fun h' => absurd h' (by decide), fun h' => absurd h (not_le.mpr h')⟩
-  · rw [if_neg h]; simp only [epv_cond] at h
-    exact ⟨fun _ => not_le.mp h, fun _ => rfl⟩
+  simp only [epv_tree, Bridge.Deton.ite_raise_ok, Bridge.Deton.ite_else_raise_ok, ite_self, Bridge.Deton.ok_eq_ok, and_true]
+  simp only [epv_cond, not_le, not_lt]
 
 theorem k1d3_outcome (p : K1d3.P) (x y z : ℝ) : K1d3.outcome p x y z = .ok ↔ 0 < p.D := by
-  simp only [epv_tree]
-  by_cases h : K1d3.c0 p x y z
-  · rw [if_pos h]; simp only [epv_cond] at h
-    exact ⟨fun h' => absurd h' (by decide), fun h' => absurd h (not_le.mpr h')⟩
-  · rw [if_neg h]; simp only [epv_cond] at h
-    exact ⟨fun _ => not_le.mp h, fun _ => rfl⟩
+  simp only [epv_tree, Bridge.Deton.ite_raise_ok, Bridge.Deton.ite_else_raise_ok, ite_self, Bridge.Deton.ok_eq_ok, and_true]
+  simp only [epv_cond, not_le, not_lt]
+
+theorem K1d2.det_0 (p : K1d2.P) : (K1d2.det p) 0 = p.xd0 := by simp [K1d2.det]
+theorem K1d2.det_1 (p : K1d2.P) : (K1d2.det p) 1 = p.xd1 := by simp [K1d2.det]
+theorem K1d3.det_0 (p : K1d3.P) : (K1d3.det p) 0 = p.xd0 := by simp [K1d3.det]
+theorem K1d3.det_1 (p : K1d3.P) : (K1d3.det p) 1 = p.xd1 := by simp [K1d3.det]
+theorem K1d3.det_2 (p : K1d3.P) : (K1d3.det p) 2 = p.xd2 := by simp [K1d3.det]
+
+/-- under D > 0 the traced tree is its only `ok` leaf (whatever its number) -/
+theorem k1d2_eq_leaf (p : K1d2.P) (hD : 0 < p.D) (x y : ℝ) :
+    K1d2.burntime p x y = K1d2.L1.burntime p x y := by
+  have hok := (k1d2_outcome p x y).mpr hD
+  epv_deton_ok_reduce hok
+
+theorem k1d3_eq_leaf (p : K1d3.P) (hD : 0 < p.D) (x y z : ℝ) :
+    K1d3.burntime p x y z = K1d3.L1.burntime p x y z := by
+  have hok := (k1d3_outcome p x y z).mpr hD
+  epv_deton_ok_reduce hok
 
 /-- the traced burn time is the documented cone -/
 theorem k1d2_eq_cone (p : K1d2.P) (hD : 0 < p.D) (q : E2) :
     K1d2.burntime p (q 0) (q 1) = cone p.t_d p.D (K1d2.det p) q := by
-  have hc : ¬ K1d2.c0 p (q 0) (q 1) := by simp only [epv_cond]; exact not_le.mpr hD
-  simp only [epv_tree, if_neg hc, epv_leaf]
+  have hok := (k1d2_outcome p (q 0) (q 1)).mpr hD
+  epv_deton_ok_reduce hok
+  simp only [epv_leaf]
   unfold cone
   rw [← sqrt_dist2 q (K1d2.det p)]
-  simp only [K1d2.det, PiLp.toLp_apply, Matrix.cons_val_zero, Matrix.cons_val_one]
-  first | done | rfl | ring_nf
+  simp only [K1d2.det_0, K1d2.det_1]
+  epv_deton_nf_eq
 
 theorem k1d3_eq_cone (p : K1d3.P) (hD : 0 < p.D) (q : E3) :
     K1d3.burntime p (q 0) (q 1) (q 2) = cone p.t_d p.D (K1d3.det p) q := by
-  have hc : ¬ K1d3.c0 p (q 0) (q 1) (q 2) := by simp only [epv_cond]; exact not_le.mpr hD
-  simp only [epv_tree, if_neg hc, epv_leaf]
+  have hok := (k1d3_outcome p (q 0) (q 1) (q 2)).mpr hD
+  epv_deton_ok_reduce hok
+  simp only [epv_leaf]
   unfold cone
   rw [← sqrt_dist3 q (K1d3.det p)]
-  simp only [K1d3.det, PiLp.toLp_apply, Matrix.cons_val_zero, Matrix.cons_val_one, Matrix.cons_val_two,
-    Matrix.cons_val]
-  first | done | rfl | ring_nf
+  simp only [K1d3.det_0, K1d3.det_1, K1d3.det_2]
+  epv_deton_nf_eq
 
 end EPV.Burn
